@@ -7,6 +7,15 @@ TRUSTED_COMMON = [
 ]
 
 PROPS = {
+    "C01": dict(
+        level_text="Proof: generic theorems over the lock-discipline LTS (any number of threads, any sequence of sections, any interleaving admitted by sync.RWMutex): well-locked sections never reach a state with two conflicting simultaneous accesses (race_free) and never deadlock (deadlock_free); the per-method section/access table is REGENERATED from /repo's source by the translator on every run and decided (table_ok, by `decide`) to be well-locked and free of nestedAcquire / unbalanced / holdsTwo / escaping-alias / blocks-while-holding flags; instantiation theorems for the regenerated table. A -race stress run of every method pair (thorough: triples, mixes) validates the extraction and is the failing-input search when the obligation breaks.",
+        level_note="Partial: the translator's mod/ref and lock-event extraction is trusted (validated by the race detector, not proved); Go memory model (DRF-SC), sync.RWMutex semantics and the runtime are assumed; callbacks passed to Traverse are assumed not to re-enter the instance. The race detector supports, never replaces, the theorem.",
+        technique="Lean 4 generic invariant proof + `decide` over a lock/access table regenerated from the Go source; Go race-detector stress as failing-input search",
+        groups=[], replay_engine=True,
+        rule="every unordered pair of exported methods (incl. the instance used as Merge/Meld argument and data handed back by GetValues/List being read) of each of the 8 lock-guarded types x initial sizes {0,1,3,6} x repetitions with randomised start order, GOMAXPROCS 1..8 and injected Gosched, under the race detector with panic recovery, stall watchdog and a sequential usability check afterwards; thorough adds 300 random triples and 60 long mixes per type; distinct = distinct (type, method set, initial size)",
+        trusted=["translator (go/packages + go/types): lock-section and mod/ref extraction", "Go race detector as dynamic validation of the extracted table"],
+        assumptions=["Go memory model: data-race-free programs are sequentially consistent", "sync.RWMutex admission semantics as documented", "callbacks do not re-enter the container; comparators are pure"],
+    ),
     "C03": dict(
         level_text="Proof: the array model of heap.go keeps the heap invariant and the multiset of elements under every operation (sift lemmas, permutation lemmas), so Peek/Pop are extremal for every strict weak order and Sort is an ordered permutation; the unrepaired Delete-without-re-sift is a recorded known finding with its negation witness and an exact partial theorem. Model tied to the code by exhaustive small-scope + seeded correspondence; the Lean multiset/extremality monitor judges the implementation's own answers.",
         level_note="Lean kernel + standard axioms; comparator assumed to be a strict weak order (decidable hypothesis, shown for the comparators used); array model hand-written.",
